@@ -122,6 +122,40 @@ func (w *world) refusedNew() {
 	}
 }
 
+// refusedParse does what a link reader does with a malformed frame: it takes a pooled buffer, lets the builder parse
+// a version-1 frame whose switch-block or message length points beyond the data (refused), and - being the owner
+// of the buffer - hands the buffer back. Nothing of this may be inherited by, or shared between, later frames.
+func (w *world) refusedParse() {
+	n := []int{68, 90, 120, 400, 599, 1400, 5000}[w.rng.Intn(7)]
+	raw := w.randBytes(n)
+	raw[0] = 1 // version
+	raw[4] = byte(mts[w.rng.Intn(len(mts))])
+	switch w.rng.Intn(3) {
+	case 0:
+		raw[48] = byte(n) // switch block reaches beyond the data (n >= 68 > remaining)
+		if n > 255 {
+			raw[48] = 255
+			raw[49+255], raw[49+255+1] = 0xff, 0xff
+		}
+	case 1:
+		raw[48] = 0
+		raw[49], raw[50] = 0xff, 0xff // message beyond the data
+	default:
+		raw[48] = 0
+		raw[49], raw[50] = byte((n-51-8)>>8), byte(n-51-8) // no room for the authentication block
+	}
+	ps := w.b.GetPooledSlice(12 + n + 16)
+	if ps == nil {
+		return
+	}
+	copy(ps[12:], raw)
+	if f, err := w.b.ParseFrame(ps[12:12+n], ps[:cap(ps)], 12); err == nil {
+		f.ReturnToPool() // accepted after all: the frame owns the buffer now
+		return
+	}
+	w.b.ReturnPooledSlice(ps)
+}
+
 type world struct {
 	c      *vf.Ctx
 	b      *frame.Builder
@@ -296,6 +330,9 @@ func (w *world) exec(a act) {
 	panicked, pv, _ := vf.NoPanic(func() {
 		switch a.Name {
 		case "new":
+			if w.rng.Intn(4) == 0 {
+				w.refusedParse()
+			}
 			mt := mts[w.rng.Intn(len(mts))]
 			sw, msg, apx := w.sizesFor(mt, w.tmap[a.T-1])
 			sh := &shadow{src: addr(w), dst: addr(w), mt: mt, sw: w.randBytes(sw), msg: w.randBytes(msg), apx: w.randBytes(apx), psOff: w.margin[0], isNew: true}
@@ -314,6 +351,9 @@ func (w *world) exec(a act) {
 		case "parse":
 			if w.rng.Intn(3) == 0 {
 				w.refusedNew()
+			}
+			if w.rng.Intn(3) == 0 {
+				w.refusedParse()
 			}
 			mt := mts[w.rng.Intn(len(mts))]
 			old := w.margin
